@@ -709,6 +709,33 @@ impl Space {
 // deep parentheses: redundant parentheses cost exactly one level of the nesting budget each
 
 /// flat expressions (no nesting of their own); `#k` marks operand k
+/// places that take a whole expression: an unparenthesised conditional there means the same as a
+/// parenthesised one
+const WHOLE_EXPR_PLACES: [&str; 9] = ["{#: 1}", "{'k': #}", "[#]", "[1, #]", "size([#])", "l[#]", "f'{#}'", "(#)", "[1].map(i, #)"];
+const WHOLE_EXPRS: [&str; 5] = ["c ? 'a' : 'b'", "c ? 'a' : d ? 'b' : 'x'", "c || d", "c ? 0 : 1", "!c ? 'a' : 'b'"];
+
+fn run_whole_place(idx: u64, acc: &mut Acc) {
+    let d = unrank(idx, &[WHOLE_EXPR_PLACES.len() as u64, WHOLE_EXPRS.len() as u64]);
+    let (place, e) = (WHOLE_EXPR_PLACES[d[0] as usize], WHOLE_EXPRS[d[1] as usize]);
+    let bare = place.replace('#', e);
+    let paren = place.replace('#', &format!("({})", e));
+    acc.nontrivial(&idx);
+    for (c, dv) in [(true, true), (true, false), (false, true), (false, false)] {
+        let binds = [("c", V::Bool(c)), ("d", V::Bool(dv)), ("l", V::list(&[V::Int(7), V::Int(8)]))];
+        let (r0, r1) = (real::eval(&paren, &binds), real::eval(&bare, &binds));
+        acc.evals(2);
+        acc.class(&r1.class());
+        if !r0.agrees(&r1) || r1.is_compile_fail() != r0.is_compile_fail() {
+            acc.violation(
+                &format!("whole-expression place `{}` reads `{}` differently without parentheses", place, e),
+                json!({"src": bare, "with_parentheses": paren, "c": c, "d": dv}),
+                r0.show(),
+                r1.show(),
+            );
+        }
+    }
+}
+
 const DEEP_BASES: [&str; 8] = [
     "#0 - #1 - #2", "#0 + #1 * #2", "#0 < #1 && #2 > #0", "#0 > #1 || #1 > #2 && #2 > #0", "#0 == #1", "#0 * #1 % #2", "#0 != #1 - #2", "#0 - #1 / #2 + #0",
 ];
@@ -807,6 +834,7 @@ pub fn replay_families(t: Tier) -> Vec<Family<'static>> {
     vec![
         Family::new("sequences", sp.size(), move |i, a| sp.run(i, a)),
         Family::new("deep-parentheses", deep_cases().len() as u64, run_deep),
+        Family::new("whole-expression-places", (WHOLE_EXPR_PLACES.len() * WHOLE_EXPRS.len()) as u64, run_whole_place),
     ]
 }
 
@@ -815,11 +843,12 @@ pub fn run(t: Tier) -> i32 {
     let mut rep = Report::new(ID, t, "exploration");
     let sp = Space::new(t);
     rep.rule = format!(
-        "sequences: every flat sequence operand (op operand)^k for k <= {} over the 14 binary operators and `?`/`:` (16 symbols), plain, with every non-empty decoration (5 prefix runs: none ! !! - -- x 6 postfix chains: none .f [i] (y) .f(y)[i] (y,z)) on one operand at a time, and for k <= {} on all operands at once; each sequence is parsed by an independent table-driven reference parser (levels: ?: right-nesting in the else branch, ||, &&, relations incl. in, + -, * / %, prefix runs, postfix chains; equal levels group left) and rendered 9 ways (as is / every operator node parenthesised / doubly parenthesised x no blanks / single blanks / newline-tab runs); the canonical form of Program::ast() must equal the reference tree in every rendering and the value under an int and a bool environment - also with every subset of the operands written as literals (small ints incl. a hexadecimal literal ending in e, in three layouts; and boundary values: minimum/maximum int, a uint, 2^32) - must equal the reference evaluation of the reference tree; deep-parentheses: 8 flat expressions with j pairs of parentheses around the whole and k pairs around one operand for every j + k up to the deepest nest of list brackets the implementation accepts (measured: 30 on this tree): accepted, same canonical tree and same value under 3 environments as without them; sequences the grammar gives no structure (unbalanced or nested ?: without parentheses) must be rejected. Non-trivial = every sequence; distinct by index",
+        "sequences: every flat sequence operand (op operand)^k for k <= {} over the 14 binary operators and `?`/`:` (16 symbols), plain, with every non-empty decoration (5 prefix runs: none ! !! - -- x 6 postfix chains: none .f [i] (y) .f(y)[i] (y,z)) on one operand at a time, and for k <= {} on all operands at once; each sequence is parsed by an independent table-driven reference parser (levels: ?: right-nesting in the else branch, ||, &&, relations incl. in, + -, * / %, prefix runs, postfix chains; equal levels group left) and rendered 9 ways (as is / every operator node parenthesised / doubly parenthesised x no blanks / single blanks / newline-tab runs); the canonical form of Program::ast() must equal the reference tree in every rendering and the value under an int and a bool environment - also with every subset of the operands written as literals (small ints incl. a hexadecimal literal ending in e, in three layouts; and boundary values: minimum/maximum int, a uint, 2^32) - must equal the reference evaluation of the reference tree; deep-parentheses: 8 flat expressions with j pairs of parentheses around the whole and k pairs around one operand for every j + k up to the deepest nest of list brackets the implementation accepts (measured: 30 on this tree): accepted, same canonical tree and same value under 3 environments as without them; whole-expression-places: 5 conditional and || expressions in 9 places that take a whole expression (map key and value, list element, call argument, index, f-string hole, parentheses, macro body) with and without parentheses of their own: same outcome under all bindings; sequences the grammar gives no structure (unbalanced or nested ?: without parentheses) must be rejected. Non-trivial = every sequence; distinct by index",
         sp.maxk, sp.full_deco_k
     );
     rep.run_family(Family::new("sequences", sp.size(), |i, a| sp.run(i, a)));
     rep.run_family(Family::new("deep-parentheses", deep_cases().len() as u64, run_deep));
+    rep.run_family(Family::new("whole-expression-places", (WHOLE_EXPR_PLACES.len() * WHOLE_EXPRS.len()) as u64, run_whole_place));
     rep.assumptions = vec![
         "the reference parser (c02.rs) is the reading of the CEL grammar named in the statement".into(),
         "call arguments are compared in source order (their stored order in the tree is an internal choice)".into(),
